@@ -292,6 +292,10 @@ def rule_C01(c):
             c.check(ok, "C01.R1", "bls_verify/map_to_G1-checked", c.pos(g, n), "hash-to-curve result is checked before the pairing",
                     "map_to_G1's result is not checked before the pairing (a wrong-length hash would leave the hash point uninitialised)")
     rule_pairing_core(c, "C01.R1")
+    rule_pairing_flush(c, "C01.R1")
+    # R8: keys and signatures are handed to the pairing as affine points only after a conversion (= C04.R5)
+    c.floor("C01.R8", 2)
+    rule_affine_casts(c, "C01.R8")
     # R7: identity / equality predicates of the glue inspect whole objects (the identity flag and the zero-key test rest on them)
     c.floor("C01.R7", 20)
     rule_object_extents(c, "C01.R7")
@@ -374,6 +378,9 @@ def rule_C02(c):
         for h in [n for n in g.nodes if n.kind == "loophead" and own_loop(n)]:
             brs = [s_ for s_ in h.succ if s_ is not None and s_.kind == "branch"]
             latch = [n for n in g.nodes if n.kind == "stmt" and n.tag == "inc" and h in n.succ]
+            if not latch:
+                # while / do loops: the sources of the back edges
+                latch = [n for n in g.nodes if n is not h and h in [s_ for s_ in n.succ if s_ is not None] and g.dominates(h, n)]
             if not brs or not latch:
                 continue
             body_entry = brs[0].succ[0]
@@ -451,10 +458,72 @@ def rule_C02(c):
         so = g.calls("Fp12_set_one")
         okk = bool(fe) and bool(so) and "init_flag == 0" in g.resolved_facts(so[0][0])
         c.check(okk, "C02.R4", "Fp12_multi_pairing/empty-product", c.p.pos(g.f), "empty product is set to one before the final exponentiation", "result is not initialised to one when every pair was skipped")
+    rule_pairing_flush(c, "C02.R4")
+
+
+def rule_pairing_flush(c, rule):
+    """Fp12_multi_pairing: every couple copied into the Miller-loop arrays is passed to a Miller loop before the final
+    exponentiation. Path exploration over the CFG with one ghost bit `pending` (set by the increment of the fill counter
+    that follows the copies, cleared by a Miller-loop call); a test of the fill counter against zero follows only the
+    non-zero edge while couples are pending, every other branch is followed both ways."""
+    fn = "Fp12_multi_pairing"
+    g = c.cfg(rule, fn)
+    if not g:
+        return
+    # the fill counter: the variable added to the affine arrays in the copy destinations
+    cnt = None
+    for n_, call in g.calls("vec_copy"):
+        mo = re.match(r"\(?&?\(?[pq]_aff(?:\[| \+ )(\w+)", g.r(call["inner"][1]))
+        if mo:
+            cnt = mo.group(1)
+    millers = {n_.id for n_, call in g.calls() if "miller_loop" in (callee_name(call) or "")}
+    if cnt is None or not millers:
+        c.und(rule, fn + "/flush", c.p.pos(g.f), "Miller-loop batching idiom not recognised (fill counter or Miller-loop call not found)")
+        return
+    incs = set()
+    for n_ in g.nodes:
+        if n_.expr is None:
+            continue
+        for x in walk(n_.expr):
+            if x.get("kind") == "UnaryOperator" and x.get("opcode") == "++" and g.r(x["inner"][0]) == cnt:
+                incs.add(n_.id)
+            if x.get("kind") == "CompoundAssignOperator" and x.get("opcode") == "+=" and g.r(x["inner"][0]) == cnt:
+                incs.add(n_.id)
+    finals = [n_ for n_, call in g.calls("final_exp")]
+    seen = set()
+    bad = None
+    stack = [(g.entry if hasattr(g, "entry") else g.nodes[0], 0, ())]
+    while stack and bad is None:
+        node, pend, trail = stack.pop()
+        if node is None or (node.id, pend) in seen:
+            continue
+        seen.add((node.id, pend))
+        if node.id in millers:
+            pend = 0
+        if node.id in incs:
+            pend = 1
+        if node in finals and pend:
+            bad = "→".join(str(l) for l in trail[-8:] + (node.line,))
+            break
+        succ = list(node.succ)
+        if node.kind == "branch" and pend and len(succ) == 2:
+            t = g.r(node.expr).replace(" ", "")
+            if t in ("(%s>0)" % cnt, "(%s!=0)" % cnt, cnt, "(%s>=1)" % cnt):
+                succ = [succ[0]]
+            elif t in ("(%s==0)" % cnt, "(!%s)" % cnt, "(%s<=0)" % cnt, "(%s<1)" % cnt):
+                succ = [succ[1]]
+        for s_ in succ:
+            stack.append((s_, pend, trail + ((node.line,) if node.line else ())))
+    c.check(bad is None, rule, fn + "/pending-couples-flushed", c.p.pos(g.f), "every copied couple reaches a Miller loop before the final exponentiation (%d states explored)" % len(seen),
+            "couples copied into the Miller-loop arrays can reach the final exponentiation without having been passed to a Miller loop (path through lines %s): their pairings are silently dropped from the product" % bad)
 
 
 def rule_C17(c):
+    # R4: keys and proofs are handed to the pairing as affine points only after a conversion (= C04.R5)
+    c.floor("C17.R4", 2)
+    rule_affine_casts(c, "C17.R4")
     c.floor("C17.R1", 6)
+    rule_pairing_flush(c, "C17.R1")
     parsed = rule_sanitised(c, "C17.R1", "bls_spock_verify", 2)
     g = c.cfg("C17.R1", "bls_spock_verify")
     if g:
@@ -483,12 +552,20 @@ def rule_C17(c):
 # ------------------------------------------------------------------ C03
 
 def loop_of(g, node):
-    """innermost loophead dominating node whose body contains node"""
+    """innermost loophead whose natural loop contains node: the head dominates it and it reaches a back-edge source of
+    the head without passing through the head (a statement that follows an inner loop inside an outer one reaches the
+    inner head again only through the inner loop's entry, so it belongs to the outer loop only)"""
     best = None
     for h in g.nodes:
-        if h.kind == "loophead" and g.dominates(h, node) and h.id in g.reach_from(node):
-            if best is None or g.dominates(best, h):
-                best = h
+        if h.kind != "loophead" or not g.dominates(h, node):
+            continue
+        latches = [p_ for p_ in g.nodes if h in [s_ for s_ in p_.succ if s_ is not None] and g.dominates(h, p_)]
+        if node is not h:
+            reach = g.reach_from(node, avoid=h)
+            if not any(l_.id in reach or l_ is node for l_ in latches):
+                continue
+        if best is None or g.dominates(best, h):
+            best = h
     return best
 
 
@@ -899,6 +976,33 @@ def rule_affine_casts(c, rule):
                             ok = True
                 c.check(ok, rule, "%s/affine-cast:%s" % (fn, base), c.pos(g, node), "affine reinterpretation of an object that is affine by construction",
                         "`%s` (a general, possibly Jacobian point) is reinterpreted as an affine point in %s without a preceding conversion: results are wrong whenever Z ≠ 1 (e.g. for the output of a previous addition)" % (g.r(inner), fn))
+    # copies of a general point into an affine slot (`vec_copy(q_aff + k, src, sizeof(POINTonE2_affine))`): the same
+    # reinterpretation without a cast — the source must be a local a dominating E?_to_affine wrote
+    for fn in sorted(c.p.funcs):
+        if _unknown_void_helper(c, fn):
+            continue
+        try:
+            g = c.p.cfg(fn)
+        except cast.Unsupported:
+            continue
+        for node, call in g.calls("vec_copy"):
+            if len(call["inner"]) < 4:
+                continue
+            dt = _type_of(strip(call["inner"][1])) or ""
+            src = strip(call["inner"][2])
+            st_ = _type_of(src) or ""
+            if "_affine" not in dt or "_affine" in st_:
+                continue
+            if not any(t_ in st_.replace("const ", "").replace("*", " ").split() for t_ in ("E1", "E2", "POINTonE1", "POINTonE2")):
+                continue
+            n += 1
+            base = base_name(g.r(src))
+            ok = fn in ("E1_affine_on_curve", "E2_affine_on_curve")
+            for m, call2 in g.calls():
+                if callee_name(call2) in ("E1_to_affine", "E2_to_affine") and base_name(g.r(call2["inner"][1])) == base and g.dominates(m, node):
+                    ok = True
+            c.check(ok, rule, "%s/affine-copy:%s" % (fn, base), c.pos(g, node), "an affine slot is filled from an object written by a dominating E?_to_affine",
+                    "`%s` (a general, possibly Jacobian point) is copied into an affine slot in %s without a preceding conversion: only X and Y are taken, Z is dropped, so the pairing / sum is computed for another point whenever Z ≠ 1 (keys returned by subtractions, DKG shares)" % (g.r(src), fn))
     # coordinate reads: x / y of a point object leave the point abstraction (serialisation, sign bit, printing)
     # only for an object that a dominating E?_to_affine wrote; the readers, which *construct* the point
     # from its affine coordinates (and set Z=1 afterwards), are the only other place coordinates are touched
@@ -1938,6 +2042,26 @@ def rule_C09(c):
 def rule_C19(c):
     c.floor("C19.R3", 60)
     c.stats["contract_params_validated"] = rule_table(c, "C19.R3")
+    # R7: the glue keeps no writable storage that outlives a call: no function-static or file-scope variable that is not
+    # const (two concurrent calls from Go would share it; the Go race detector does not see C memory)
+    nst = 0
+    for fn, fd in sorted(c.p.funcs.items()):
+        for e in walk(fd):
+            if e.get("kind") == "VarDecl" and e.get("storageClass") == "static":
+                qt = (e.get("type") or {}).get("qualType", "")
+                nst += 1
+                c.check(qt.startswith("const ") or " const" in qt.split("[")[0], "C19.R7", "%s/static:%s" % (fn, e.get("name")), "%s:%s" % (c.p.where.get(fn, "?"), e.get("_line")),
+                        "function-static object is const", "`static %s %s` in %s is writable storage shared by every call of the function: concurrent calls from different goroutines overwrite each other's data" % (qt, e.get("name"), fn))
+    for tu in c.p.tus:
+        for name, d in sorted(tu.globals.items()):
+            qt = (d.get("type") or {}).get("qualType", "")
+            if d.get("storageClass") == "extern":
+                continue
+            nst += 1
+            c.check(qt.startswith("const ") or " const" in qt.split("[")[0], "C19.R7", "global:%s" % name, "%s:%s" % (tu.unit, d.get("_line")),
+                    "file-scope object of the glue is const", "file-scope variable `%s %s` of the glue is writable: state shared by all calls" % (qt, name))
+    if nst == 0:
+        c.ok("C19.R7", "glue/no-static-storage", "bls_core.c", "the glue declares no function-static or file-scope variables")
 
 
 # ------------------------------------------------------------------ C20.R2 glue invariance under build flags
